@@ -6,6 +6,10 @@ use mwv::rng::Rng;
 use mwv::wire::*;
 use std::io::Write;
 
+#[path = "../reader_parse.rs"]
+mod rp;
+use rp::*;
+
 fn ty_name(t: &TokenType) -> &'static str {
     match t {
         TokenType::Char => "Char",
@@ -194,6 +198,48 @@ fn main() {
                     maxc
                 )
                 .unwrap();
+            }
+        }
+        // ---- C11: datum parser, remaining text, datum-by-datum iteration
+        "parse-gen" | "parse-soup" | "parse-mut" | "readall-gen" | "readall-mut" | "readall-soup" => {
+            let n: usize = args[2].parse().unwrap();
+            let mut rng = Rng::new(seed ^ 0x11);
+            for _ in 0..n {
+                let t = match cmd {
+                    "parse-gen" | "readall-gen" => gen_program(&mut rng, 4, 4),
+                    "parse-soup" | "readall-soup" => random_text(&mut rng, 18),
+                    _ => {
+                        let p = gen_program(&mut rng, 3, 3);
+                        mutate(&mut rng, &p)
+                    }
+                };
+                if cmd.starts_with("parse") {
+                    writeln!(out, "parse-text {} {}\t{}", enc_text(&t), oracle_text(&t), impl_parse_text(&t)).unwrap();
+                } else {
+                    writeln!(out, "read-all {} {}\t{}", enc_text(&t), oracle_read_all(&t), impl_read_all(&t)).unwrap();
+                }
+            }
+        }
+        // every token-boundary prefix of generated datum sequences (both ends of every token)
+        "parse-cut" => {
+            let n: usize = args[2].parse().unwrap();
+            let mut rng = Rng::new(seed ^ 0x12);
+            for _ in 0..n {
+                let t = gen_program(&mut rng, 2, 4);
+                let tokens = match lex::scan(&t) {
+                    Ok(ts) => ts,
+                    Err(_) => continue,
+                };
+                let mut cuts: Vec<usize> = vec![];
+                for tok in &tokens {
+                    cuts.push(tok.span.0);
+                    cuts.push(tok.span.1);
+                }
+                cuts.dedup();
+                for c in cuts {
+                    let p = &t[..c];
+                    writeln!(out, "parse-text {} {}\t{}", enc_text(p), oracle_text(p), impl_parse_text(p)).unwrap();
+                }
             }
         }
         _ => {
